@@ -610,6 +610,12 @@ impl endpoint::Session for Session {
 
     fn set_session_stop_reason(&mut self, reason: SessionStopReason) {
         let _ = self.session_stop_reason.set(reason);
+        // The unsettled maps are shared with the link handles and outlive the session, so
+        // dropping the relays does not wake the callers waiting on an outcome
+        self.link_by_input_handle
+            .values_mut()
+            .chain(self.link_by_name.values_mut().flatten())
+            .for_each(|relay| relay.fail_pending_settlements());
     }
 
     fn session_stop_reason(&self) -> &Arc<OnceLock<SessionStopReason>> {
